@@ -63,6 +63,13 @@ class NP:
             return a
         return _np.empty(shape, dtype, **kw)
 
+    def full(self, shape, fill_value, dtype=None, **kw):
+        if isinstance(fill_value, Sym) or has_sym(_np.asarray(fill_value, dtype=object)):
+            a = _np.empty(shape, dtype=object)
+            a[...] = fill_value
+            return a
+        return _np.full(shape, fill_value, dtype=dtype, **kw)
+
     def asarray(self, a, dtype=None, **kw):
         """float arrays with symbolic entries are object arrays in the lifted run: a request for dtype float keeps numpy's contract
         (an array that already has the requested type is returned AS IS, not copied; lists and the like give a new array)"""
@@ -92,10 +99,12 @@ class NP:
         if not (has_sym(_np.asarray(a, dtype=object)) or has_sym(_np.asarray(b, dtype=object))):
             return _np.isclose(_np.asarray(a, dtype=float), _np.asarray(b, dtype=float), rtol=rtol, atol=atol, equal_nan=equal_nan)
         a, b = _np.broadcast_arrays(_np.asarray(a, dtype=object), _np.asarray(b, dtype=object))
-        out = _np.empty(a.shape, dtype=object)
+        # the result is used as a mask (indexing, ~, &): every entry is decided here by the path oracle (entries that follow from the path condition
+        # or are concrete do not fork)
+        out = _np.empty(a.shape, dtype=bool)
         for idx in _np.ndindex(a.shape):
-            out[idx] = abs(a[idx] - b[idx]) <= atol + rtol * abs(b[idx])
-        return out if out.shape else out[()]
+            out[idx] = bool(abs(a[idx] - b[idx]) <= atol + rtol * abs(b[idx]))
+        return out if out.shape else bool(out[()])
 
     def allclose(self, a, b, rtol=1e-05, atol=1e-08, equal_nan=False):
         if _np.shape(a) != _np.shape(b):
